@@ -28,7 +28,7 @@ import zope.testrunner.shuffle as ZSH  # noqa: E402
 import zope.testrunner.statistics as ZST  # noqa: E402
 
 CHILD_SCRIPT = os.path.join(boot.VERIF, 'vsim', 'child_boot.py')
-STEP_CAP = 200000
+STEP_CAP = 400000
 
 
 class HarnessError(Exception):
@@ -983,7 +983,8 @@ def execute(spec, options, sched_mode=None, knobs=None, defaults=None, label='ma
         except Hang as e:
             res.hang = str(e)
         except StepCap:
-            res.hang = 'step cap exceeded'
+            # a bound of the simulator, not a verdict about the code under test
+            raise HarnessError('scheduler step cap exceeded')
         except BaseException as e:  # noqa
             res.raised = (type(e).__name__, str(e)[:300],
                           traceback.format_exc()[-1500:])
